@@ -214,7 +214,7 @@ def r3(run, ctx):
                 continue
             if f.module.name == 'circus.util':
                 continue
-            m = mutator_nodes(ctx, f)
+            m = mutator_nodes(ctx, f, with_options=True)
             if m:
                 bad = (f, m[0], ctx.cg.chain(seen, key))
                 break
